@@ -12,6 +12,17 @@ The modelled program (what harness/hx-c10 builds from the real crates):
 * optionally a subscriber `Effect` reading `d.get()`; optionally also a memo `m = memoFn sources`
   read before or after `d` (`EffKind`);
 * awaiter tasks (`spawn_local(async { d.await })`) attached at arbitrary points;
+* a stand-in `<Suspense/>` boundary: a child owner that provides a `SuspenseContext`; `bread` = the boundary
+  reads the value synchronously under that owner (`try_read_untracked`: a task handle of its own + a spawned
+  reader task `ready().await; drop(handle)` + the context registered in `inner.suspenses`, which the loop
+  turns into task ids held for the duration of the next fetch); `pending` = the boundary's `tasks.len()`;
+* instead of a plain derived, the real `leptos_server` wrappers: `Resource`/`ArcResource` (`res`: the memo is
+  `(refetch counter, sources)`, read untracked by the fetcher, `refetch()` bumps the counter),
+  `OnceResource`/`ArcOnceResource` (`once`: one future, no sources, no refetch, the boundary waits only while
+  there is no value), `LocalResource`/`ArcLocalResource` (`isLocal`: `refetch()` is a tracked signal write =
+  `mark_dirty`; every fetch first awaits `Executor::tick()`, i.e. a spawned tick task that fires a oneshot:
+  `tick0` for fetch 0 — spawned by the constructor before the derived's own task — and `AwKind.tick` entries
+  for later fetches; `tickFired`, `dataReg` = how far the task has got inside `fut.await`);
 * one single-threaded executor owned by the harness: a poll picks the `j`-th live woken task.
 
 | model                     | code (reactive_graph/src) |
@@ -36,7 +47,10 @@ The modelled program (what harness/hx-c10 builds from the real crates):
 | `memoUpdate`, `mMarkDirty`| `MemoInner::update_if_necessary` / `mark_dirty` (computed/inner.rs); the only subscriber of `m` is the effect: skipped as the current observer while the effect runs, marked dirty when `m` changes during the effect's (untracked) check phase |
 | `effUpdate`, `effAny`     | `EffectInner::update_if_necessary` (effect/inner.rs, as of /repo commit "fix: effects can miss an update or run twice…"): `dirty` flag, else `untrack(any over the sources in read order)`, then `was_marked = take(dirty)` |
 | `eIter`, `eLoop`, `runEffect` | the task of `Effect::new` (effect/effect.rs): `while rx.next().await.is_some() { if update_if_necessary || first_run { clear_sources; run } }` |
-| `readyList`, `pollNth`    | `hx_common::sched`: live woken tasks in spawn order (derived, effect, awaiters); `poll j` = its `j mod len`-th entry |
+| `readyList`, `pollNth`    | `hx_common::sched`: live woken tasks in spawn order (tick of fetch 0, derived, effect, then awaiters / reader tasks / later ticks as spawned); `poll j` = its `j mod len`-th entry |
+| `bread`, `handleDrop`     | `ArcAsyncDerived::try_read_untracked` under a `SuspenseContext` (`ArcOnceResource::try_read_untracked` for `once`); the reader task's `drop(handle)` |
+| `refetch`                 | `Resource::refetch` (`*refetch.write() += 1`) / `d.mark_dirty()` (= `LocalResource::refetch`, whose counter signal the fetcher tracks) |
+| `pollT0`, `tickFires`     | the task spawned by `any_spawner::Executor::tick()`: `tx.send(())` wakes whoever awaits the fetch's future |
 | `complete`                | `oneshot::Sender::send`: wakes the waker of the last poll of the receiver (the task's once it has polled the fetch; the no-op waker of `now_or_never()` before) |
 
 Abstractions (stated, not hidden): fetches are serialised by the single task (a new fetch starts only
@@ -56,8 +70,7 @@ happens: after one iteration that goes round again the channel flag is clear, so
 (`dLoop_eq` in Proofs/Async.lean).  The effect's loop goes round at most three times (a memo that changes
 during the check phase re-sets the channel flag once); its invariant is proved for every fuel.
 
-Not modelled: `Suspense` bookkeeping (`suspenses`, `SuspenseContext` — no context in scope in the
-harness), `AsyncTransition` (`ready_tx`: no transition running), `owner.paused()`, the untracked
+Not modelled: `AsyncTransition` (`ready_tx`: no transition running), `owner.paused()`, the untracked
 `Resource` construction (`new_with_manual_dependencies`), several threads (C19).
 -/
 namespace Leptos.Async
